@@ -316,12 +316,14 @@ Definition write_dict : adict wfacts :=
 Definition write_compiled := compile (with_flags write_dict status_write_flags) false status_write.
 (* the final value of the flag local `salvaged` of WriteTool.execute, evaluated from its generated assignment sites
    (None when the source has no such flag, or a site guard is not understood) *)
-Definition write_salvaged_flag (f : wfacts) : option bool :=
+Definition write_salvaged_flag_c : option (wfacts -> bool) :=
   match assoc (s2l "salvaged") status_write_flags with
   | Some sites => match cflag_sites write_dict sites with
-                  | Some cs => Some (flag_eval cs false f empty_envl)
+                  | Some cs => Some (fun f => flag_eval cs false f empty_envl)
                   | None => None end
   | None => None end.
+Definition write_salvaged_flag (f : wfacts) : option bool :=
+  match write_salvaged_flag_c with Some g => Some (g f) | None => None end.
 Definition write_env (f : wfacts) (grammar_hint debug_grammar : bool) : option envl :=
   match write_compiled with Some r => r f | None => None end.
 
